@@ -425,3 +425,57 @@ func VH_C08_keys() {
 	}
 	rt.Observe("sel", sel)
 }
+
+// VH_C14_identity: identity.Remove deletes the identity's local ref and its tracking refs
+// for every configured remote and nothing else; repeating it does no further harm.
+func VH_C14_identity() {
+	r := vrepo.New()
+	h := r.AddCommit(r.AddTree(nil))
+	id := vhHexId(0x7000)
+	sibling := entity.Id(string(id)[:63] + "f")
+	remoteNames := []string{"origin", "up"}
+	nr := rt.Choose(len(remoteNames) + 1)
+	for k := 0; k < nr; k++ {
+		r.Remotes[remoteNames[k]] = "url"
+	}
+	var mine, others []string
+	add := func(name string, isMine bool) {
+		if rt.Choose(2) == 1 {
+			r.SetRef(name, h)
+			if isMine {
+				mine = append(mine, name)
+			} else {
+				others = append(others, name)
+			}
+		}
+	}
+	add(identityRefPattern+id.String(), true)
+	for k := 0; k < nr; k++ {
+		add(fmt.Sprintf(identityRemoteRefPattern, remoteNames[k])+id.String(), true)
+	}
+	add(identityRefPattern+sibling.String(), false)
+	add(fmt.Sprintf(identityRemoteRefPattern, "unconfigured")+id.String(), false)
+	add("refs/bugs/"+id.String(), false)
+	add("refs/heads/master", false)
+	var err error
+	panicked, _ := rt.Try(func() { err = Remove(r, id) })
+	rt.Assert(!panicked, "identity-remove-no-panic")
+	if len(mine) > 0 {
+		rt.Assert(err == nil, "identity-remove-succeeds")
+		rt.Cover("removed")
+	} else {
+		rt.Assert(err == nil || entity.IsErrNotFound(err), "absent-identity-reported")
+	}
+	for _, m := range mine {
+		ok, _ := r.RefExist(m)
+		rt.Assert(!ok, "identity-ref-removed")
+	}
+	for _, o := range others {
+		ok, _ := r.RefExist(o)
+		rt.Assert(ok, "other-ref-kept")
+	}
+	n := len(r.Refs)
+	err2 := Remove(r, id)
+	rt.Assert(err2 == nil || entity.IsErrNotFound(err2), "second-remove-harmless")
+	rt.Assert(len(r.Refs) == n, "second-remove-changes-nothing")
+}
